@@ -155,9 +155,14 @@ def enumerate_crate_jobs(feats, tier):
             add(crate, [])                       # -> control
             for f in others[:2]:
                 add(crate, [f])                  # -> controls (no runtime)
+            # Features that only forward to zvariant (`x = ["zvariant/x"]`) gate no zbus code, so the
+            # quick tier pairs them with the default runtime only; everything else with both.
+            forwarding = [f for f in others if f in feats.get("zvariant", [])]
             for rt in ZBUS_RUNTIMES:
                 add(crate, [rt], "runtime alone")
                 for f in others:
+                    if tier == "quick" and rt != ZBUS_RUNTIMES[0] and f in forwarding:
+                        continue
                     add(crate, [rt, f], "runtime + single feature")
             add(crate, ZBUS_RUNTIMES, "both runtimes")
             for rt in ZBUS_RUNTIMES:
@@ -345,6 +350,7 @@ def run_job(job, target_dir, run_dir, jobs=None):
            "output_tail": out[-6000:]}
     if p.returncode != 0:
         res.update(analyse(out))
+        res["documented_compile_error"] = ZBUS_COMPILE_ERROR_TEXT in out
     return res
 
 
@@ -428,12 +434,31 @@ def prepare_seed(run_dir, ncpu, n_workers, log):
     t0 = time.time()
     with open(os.path.join(TARGET_BASE, ".feat-seed.lock"), "w") as lf:
         fcntl.flock(lf, fcntl.LOCK_EX)
-        for crate in ("zvariant", "zbus"):
-            subprocess.run(["cargo", "check", "--offline", "--locked", "--all-features", "--manifest-path",
-                            os.path.join(REPO, crate, "Cargo.toml")],
-                           stdout=subprocess.DEVNULL, stderr=subprocess.DEVNULL,
-                           env=cargo_env(SEED_DIR, ncpu), cwd=run_dir)
-        log("seed target dir ready in %.1fs" % (time.time() - t0))
+        # The seed only has to hold the compiled third-party dependencies; they are determined by
+        # the lock file and the toolchain, so the seed is rebuilt only when those change.
+        stamp_path = os.path.join(SEED_DIR, ".verif-seed-stamp")
+        try:
+            rustc_v = subprocess.run(["rustc", "-V"], stdout=subprocess.PIPE).stdout.decode()
+        except OSError:
+            rustc_v = "?"
+        with open(os.path.join(REPO, "Cargo.lock"), "rb") as f:
+            stamp = hashlib.sha256(f.read() + rustc_v.encode()).hexdigest()
+        try:
+            fresh = open(stamp_path).read().strip() == stamp
+        except OSError:
+            fresh = False
+        if not fresh:
+            ok = True
+            for crate in ("zvariant", "zbus"):
+                r = subprocess.run(["cargo", "check", "--offline", "--locked", "--all-features", "--manifest-path",
+                                    os.path.join(REPO, crate, "Cargo.toml")],
+                                   stdout=subprocess.DEVNULL, stderr=subprocess.DEVNULL,
+                                   env=cargo_env(SEED_DIR, ncpu), cwd=run_dir)
+                ok = ok and r.returncode == 0
+            if ok:
+                with open(stamp_path, "w") as f:
+                    f.write(stamp + "\n")
+        log("seed target dir %s in %.1fs" % ("reused" if fresh else "built", time.time() - t0))
         fcntl.flock(lf, fcntl.LOCK_SH)
         dirs = [None] * n_workers
         ts = [threading.Thread(target=lambda k=k: dirs.__setitem__(k, make_worker_dir(k))) for k in range(n_workers)]
@@ -674,7 +699,7 @@ def main():
         if nonempty_feature_set(job):
             nontrivial.add(canon(job))
         if is_control:
-            if res["exit"] != 0 and ZBUS_COMPILE_ERROR_TEXT in res["output_tail"]:
+            if res["exit"] != 0 and res.get("documented_compile_error"):
                 control_ok += 1
                 outcomes["control-rejected-by-documented-compile_error"] = \
                     outcomes.get("control-rejected-by-documented-compile_error", 0) + 1
@@ -755,7 +780,8 @@ def main():
         excluded.append("%s/%s left out of pairs/powersets (still checked alone and in all-features): %s" % (c, f, why))
     caps = []
     if tier == "quick":
-        caps.append("quick tier: pairs only within the core sets %s; larger subsets only as 'all features'"
+        caps.append("quick tier: pairs only within the core sets %s; larger subsets only as 'all features'; zbus "
+                    "features that merely forward to zvariant are combined with async-io only"
                     % json.dumps(CORE, sort_keys=True))
     else:
         caps.append("thorough tier: zvariant subsets of size <= 3 and their complements (not the full 2^%d powerset); "
